@@ -21,10 +21,10 @@ PID = 'C08'
 LEVEL = 'exploration'
 BUDGET_S = {'quick': 50, 'thorough': 700}
 FLOORS = {'quick': {'schedules': 1500, 'contended_schedules': 900, 'responses_judged': 5000, 'sweeps': 900,
-                    'single_fetch_checks': 2000, 'cross_block_probes': 60, 'stress_rounds': 6, 'thread_stress_rounds': 60, 'thread_stress_requests': 1200, 'stress_rounds_fresh_interpreters': 6, 'fault_runs_three_or_more_on_one_meta_tile': 90,
+                    'single_fetch_checks': 2000, 'cross_block_probes': 60, 'stress_rounds': 6, 'thread_stress_rounds': 60, 'thread_stress_requests': 1200, 'thread_stress_rounds_with_several_dimension_values': 10, 'stress_rounds_fresh_interpreters': 6, 'fault_runs_three_or_more_on_one_meta_tile': 90,
                     'partial_meta_runs': 80},
           'thorough': {'schedules': 40000, 'contended_schedules': 25000, 'responses_judged': 150000, 'sweeps': 40000,
-                       'single_fetch_checks': 60000, 'cross_block_probes': 1500, 'stress_rounds': 120, 'thread_stress_rounds': 1100, 'thread_stress_requests': 22000,
+                       'single_fetch_checks': 60000, 'cross_block_probes': 1500, 'stress_rounds': 120, 'thread_stress_rounds': 1100, 'thread_stress_requests': 22000, 'thread_stress_rounds_with_several_dimension_values': 150,
                        'fault_runs_three_or_more_on_one_meta_tile': 2000, 'partial_meta_runs': 1800}}
 RULE = ("case = one forced schedule of 2-6 clients requesting the same tile / tiles of the same meta tile / tiles of "
         "two different meta tiles (TMS, tile_manager batches, WMS GetMap) on an empty cache, for one configuration "
@@ -33,7 +33,8 @@ RULE = ("case = one forced schedule of 2-6 clients requesting the same tile / ti
         "trace); non-trivial = at least two clients were between their first cache read and their response at the same "
         "time. Plus 'cross-block probes' (client A is held inside the upstream, client B for another meta tile must "
         "finish), multi-process stress rounds with injected delays, and preemptive multi-thread stress rounds (3-6 real request "
-        "threads on one application, interpreter switch interval 1 microsecond)")
+        "threads on one application, interpreter switch interval 1 microsecond; variants: plain, linked single-colour tiles, "
+        "expired tiles, cache coverage, dimension values as part of the tile address)")
 ASSUMPTIONS = [
     "scheduling points: cache backend calls, FileLock open/flock/stat/close/remove/sleep, os.open/rename/unlink of "
     "write_atomic and the compact bundle code, upstream enter/return; python between them is atomic in cooperative mode",
@@ -616,7 +617,7 @@ def run_tstress(run, case):
     # variants: plain | flat_linked (single-coloured upstream, tiles are links to one shared colour file that every request
     # for that colour writes) | expired (the tiles exist but are older than the refresh threshold: the re-check under the
     # tile lock has to see what another request stored meanwhile)
-    variant = case.get('variant') or rng.choice(['plain', 'plain', 'flat_linked', 'expired', 'cache_coverage'])
+    variant = case.get('variant') or rng.choice(['plain', 'plain', 'flat_linked', 'expired', 'cache_coverage', 'dimensions'])
     if variant == 'flat_linked':
         spec['backend'] = 'file'
         spec['cache']['cache'] = {'type': 'file', 'directory_layout': rng.choice(['tc', 'tms', 'quadkey'])}
@@ -632,6 +633,15 @@ def run_tstress(run, case):
         spec['cache']['cache'] = {'type': 'file', 'directory_layout': 'tc', 'coverage': {'bbox': cov, 'srs': spec['grid']['srs']}}
         if spec['cache']['meta_size'] == [1, 1]:
             spec['cache']['meta_size'] = [2, 2]
+    elif variant == 'dimensions':
+        # the tile address includes the dimension value (layers with `dimensions`, file caches): requests for one tile
+        # coordinate with different TIME values are requests for different tiles
+        spec['backend'] = 'file'
+        spec['src_kind'] = 'wms'
+        spec['dims'] = True
+        spec['cache']['cache'] = {'type': 'file', 'directory_layout': rng.choice(['tc', 'tms', 'arcgis'])}
+        if rng.random() < 0.6:
+            spec['cache']['meta_size'] = [1, 1]
     elif variant == 'expired':
         spec['backend'] = 'file'
         spec['cache']['cache'] = {'type': 'file', 'directory_layout': 'tc'}
@@ -684,6 +694,21 @@ def run_tstress(run, case):
                 return upstream.Resp(b_.getvalue(), 'image/png')
             up.register('noise', flat)
             up.register('ntiles', flat)
+        DIMCOL = {'2020': (200, 30, 30), '2021': (30, 200, 30), '2022-06-01T00:00:00Z': (30, 30, 200), None: (90, 90, 90)}
+        if variant == 'dimensions':
+            import io as _io
+            from PIL import Image as _Image
+
+            def by_time(call):
+                try:
+                    w_, h_ = int(call.params.get('width', 32)), int(call.params.get('height', 32))
+                except ValueError:
+                    w_, h_ = 32, 32
+                col_ = DIMCOL.get(call.params.get('time'), (0, 0, 0))
+                b_ = _io.BytesIO()
+                _Image.new('RGB', (max(1, min(w_, 2048)), max(1, min(h_, 2048))), col_).save(b_, 'PNG')
+                return upstream.Resp(b_.getvalue(), 'image/png')
+            up.register('noise', by_time)
         if variant == 'expired':
             from mapproxy.cache.tile import Tile as _Tile
             # fill sequentially, then make every stored tile older than the threshold
@@ -698,6 +723,12 @@ def run_tstress(run, case):
             run.count('thread_stress_expired_tiles_prepared', nold)
         nthreads = rng.randint(3, 6)
         plans = [[rng.choice(coords) for _ in range(rng.randint(3, 6))] for _ in range(nthreads)]
+        dimvals = sorted(k for k in DIMCOL if k is not None)
+        dplans = [[rng.choice(dimvals) for _ in p_] for p_ in plans]
+
+        def flat_colour(t, want):
+            cols_ = t.source.as_image().convert('RGB').getcolors(4)
+            return (cols_ is not None and len(cols_) == 1 and cols_[0][1] == want), 'colours %r, expected %r' % (cols_, want)
         delays = [rng.choice([0, 0, 0.0005, 0.002, 0.01]) for _ in range(64)]
         n0 = len(up.log)
 
@@ -711,9 +742,12 @@ def run_tstress(run, case):
         def client(k):
             try:
                 start.wait(20)
-                for c in plans[k]:
+                for j_, c in enumerate(plans[k]):
                     with tm.session():
-                        t = tm.load_tile_coord(tuple(c))
+                        if variant == 'dimensions':
+                            t = tm.load_tile_coord(tuple(c), dimensions={'time': dplans[k][j_]})
+                        else:
+                            t = tm.load_tile_coord(tuple(c))
                     if t.source is None:
                         with plock:
                             problems.append(('no_image', 'thread %d: no image for %r' % (k, c)))
@@ -722,6 +756,9 @@ def run_tstress(run, case):
                         im_ = t.source.as_image().convert('RGB')
                         cols_ = im_.getcolors(4)
                         ok, detail = (cols_ is not None and len(cols_) == 1 and cols_[0][1] == FLAT), 'colours %r' % (cols_,)
+                    elif variant == 'dimensions':
+                        ok, detail = flat_colour(t, DIMCOL[dplans[k][j_]])
+                        detail = 'time=%s: %s' % (dplans[k][j_], detail)
                     else:
                         ok, detail, n, exact = c04.judge_tile(lat, tuple(c), t.source.as_image(), True)
                     if not ok:
@@ -753,6 +790,23 @@ def run_tstress(run, case):
             run.hit('single_fetch_checks')
             if n > 1:
                 problems.append(('multiple_fetches', '%d identical upstream requests from threads of one process: %s' % (n, url[:200])))
+        if variant == 'dimensions' and not problems:
+            # afterwards the cache holds every requested (tile, value): the right picture, and no further upstream request
+            n1 = len(up.log)
+            asked = sorted(set((tuple(c), v) for p_, dp_ in zip(plans, dplans) for c, v in zip(p_, dp_)))
+            for c, v in asked:
+                with tm.session():
+                    t = tm.load_tile_coord(c, dimensions={'time': v})
+                ok, detail = (False, 'no image') if t.source is None else flat_colour(t, DIMCOL[v])
+                run.hit('dimension_tiles_read_back')
+                if not ok:
+                    problems.append(('wrong_image', 'read back %r time=%s: %s' % (c, v, detail)))
+                    break
+            if len(up.log) != n1:
+                problems.append(('cached_tile_fetched_again', '%d upstream requests while reading back tiles that were just served: %s'
+                                 % (len(up.log) - n1, up.log[n1].url[:200])))
+            if len(set(v for c, v in asked)) > 1:
+                run.hit('thread_stress_rounds_with_several_dimension_values')
         seen = set()
         for kind, pdesc in problems:
             if kind in seen:
